@@ -95,7 +95,10 @@ def m_decode(ex, recv, args, kwargs):
     enc = args[0] if args else kwargs.get('encoding', 'utf-8')
     if not isinstance(enc, str) or enc.lower().replace('_', '-') not in ('utf-8', 'utf8') or len(args) > 1 or 'errors' in kwargs:
         return OpaqueStr()
-    ok = mk_bool(utf8_valid_term(ex, recv))
+    # the outcome is named (a Bool constant defined as utf8_valid(bytes)): the case split then costs no sequence
+    # reasoning inline; whether the failing case is possible is decided when its obligations are discharged
+    ok = ex.fresh_sym('bool', 'utf8ok')
+    ex.add_def(ok.t == utf8_valid_term(ex, recv))
     if not ex.spec_mode:
         if not ex.branch(ok):
             ex.raise_(UnicodeDecodeError, 'utf-8', b'', 0, 1, 'invalid start byte')
